@@ -27,15 +27,23 @@ CHECKS = {
          'first candidate iff it matches and lies before the short-if fence leaving the cursor just after it, otherwise returns None '
          'with the cursor restored, and terminates. The short-if fence computed inside Parser._stat is proved to be the first newline '
          'token at or after the condition (or the end of the code) -- so the body may reach exactly to the end of its line, comments '
-         'included -- and is installed for the body and removed in a finally clause.',
-    note='Bounded (never counted as proved): completeness and tree adequacy -- programs generated from an independent reference grammar '
+         'included -- and is installed for the body and removed in a finally clause. Cursor hygiene of every parser method on all its '
+         'control paths (given the _accept contract, inductively): a method that returns None has restored the cursor -- except _var / '
+         '_varlist, whose only callers restore it -- and every tree node is built with start = a position saved from the cursor and '
+         'end = the cursor.',
+    note='Structural obligations (SHAPE / PATHS) become a violation only with a failing input from the bounded run, otherwise '
+         'undecided. Bounded (never counted as proved): completeness and tree adequacy -- programs generated from an independent reference grammar '
          '(every statement kind first/middle/last and inside every block-bearing statement, then random programs) x 6 layouts through '
          'the real lexer and parser: accepted, consumed to the last token, tree == derivation with operators/operands in source order, '
-         'short-if extents. Nested short-ifs and `?x,y` are outside the dialect.',
+         'short-if extents; statements that begin with `(`, method calls with string / table argument, lists of up to three items; plus '
+         'a hand-written corpus of about 120 tricky programs (specs/luacorpus.py). Nested short-ifs and `?x,y` are outside the dialect.',
     technique='contract-based deductive verification of the cursor primitive and the short-if fence region (pyvc VCs, z3) + bounded enumeration from a reference grammar'),
  'C09': dict(category='other', design_ref='DESIGN.md section 4 (C08 / C09 / C10 / C14)',
     text='Partial proof + bounded. Proved: the token-cursor helper _get_code_for_spaces consumes exactly the maximal trivia run at the '
-         'cursor (bounded by the node / the list) and returns those tokens\' codes; the end-of-input check at the head of '
+         'cursor (bounded by the node / the list) and returns those tokens\' codes; _get_text, _get_name and _get_semis -- verified '
+         'MODULARLY against that contract -- return the trivia followed by the keyword / the name token\'s code / the run of trivia and '
+         'semicolons and leave the cursor exactly one past the token they stand for; the formatter\'s override moves the cursor exactly '
+         'like the base helper (its text is opaque); the end-of-input check at the head of '
          'LuaASTEchoWriter.to_lines -- inherited by luafmt and every other tree-driven writer -- raises ParserError iff a non-trivia '
          'token lies at or after the position where the parser stopped, for every token list and stopping point (no silent loss); '
          'every yield of every _walk_* handler is a cursor-helper result, an item of a nested walk or a token\'s own code with a cursor '
@@ -43,7 +51,10 @@ CHECKS = {
     note='Bounded (never counted as proved): that luafmt succeeds on every valid program and reproduces every token -- reference-grammar '
          'programs x 6 layouts x indent widths: tokens and comments identical under the reference tokenizer, output parses to the same '
          'tree (line-scoped constructs keep their extent), token count unchanged; and the three tree-driven writers on '
-         'lexable-but-unparsed inputs must raise or keep every token.',
+         'lexable-but-unparsed inputs must raise or keep every token; EXHAUSTIVE trivia runs (blank, tab, LF, CRLF, comment lines, `;`; '
+         '<= 3-4 symbols) at the start of the code, between statements at depth 0 and 2, after a short-if and at the end of the code; '
+         'the hand-written corpus specs/luacorpus.py. That the handlers ask for the token their node was parsed with (the precondition '
+         'of _get_text / _get_name) is not a discharged obligation.',
     technique='contract-based deductive verification of the writer cursor helper and the end-of-input region (pyvc VCs, z3) + emission scan + bounded enumeration from a reference grammar'),
  'C10': dict(category='other', design_ref='DESIGN.md section 4 (C08 / C09 / C10 / C14)',
     text='Partial proof + bounded. Proved on ALL control paths of every _walk_* handler (enumerated from the real ast, branches on the '
@@ -54,7 +65,9 @@ CHECKS = {
     note='Bounded (never counted as proved): the regular-expression pipeline of the formatter is outside the solvers\' reach. '
          'Reference-grammar programs, one statement per line, in groups of layouts with the same line breaks (re-indented, tabs, '
          'trailing blanks, CRLF, blank-run lengths, -- and // comment lines) x indent widths: one output per group, fixed point, no '
-         'trailing whitespace, at most one blank line, none at the end, indentation == indentwidth x independently recomputed depth.',
+         'trailing whitespace, at most one blank line, none at the end, indentation == indentwidth x independently recomputed depth. '
+         'EXHAUSTIVE trivia runs (<= 4-5 symbols over blank, tab, LF, CRLF, comment lines, `;`) at five positions: same output clauses, '
+         'fixed point, and one output per class of runs that differ only in leading / trailing blanks of their lines.',
     technique='path-complete verification of the indentation bookkeeping contract over the real handlers + bounded canonical-form enumeration'),
  'C03': dict(category='proof', design_ref='DESIGN.md section 4 (C03)',
     text='Every section writer and reader (gfx, gff/map hex rows, sfx, music) is proved equal to the P8Spec text / bytes functions '
@@ -191,7 +204,9 @@ CHECKS = {
          'comment emits nothing (never becomes code); that code never becomes a comment is the no-fusion obligation of C01 '
          '(pairs "-" "-" and "/" "/" are in FUSE), which this check also discharges.',
     note='Header shape variations (blank lines, spaces, comment kinds, code on the same line) are all token sequences over the '
-         'abstract classes and therefore inside the exploration. get_title/get_byline themselves are not under contract.',
+         'abstract classes and therefore inside the exploration; about 3000 concrete header shapes also run through the real minifier '
+         '(bounded; it is what decides when a change takes the loop body out of the executor\'s subset). get_title/get_byline themselves '
+         'are not under contract.',
     technique='contract-based deductive verification: symbolic execution of the real loop body into a finite transition relation + exhaustive state exploration (+ REG no-fusion)'),
  'C07': dict(category='proof', design_ref='DESIGN.md section 4 (C07), Appendix B',
     text='For the default lexer state: the real ordered matcher table (patterns taken from the compiled objects of the real '
@@ -199,8 +214,10 @@ CHECKS = {
          'are turned into automata; the product with the automata of an independent lexical specification is explored '
          'exhaustively, deciding for ALL byte strings that the first token picotool reports has the kind and length maximal '
          'munch dictates (keyword over name, longest operator/numeral/name). Progress (no empty match) and chunk independence '
-         '(no token spans past a newline) are decided the same way. Multi-line states, escape decoding, positions and numeric '
-         'values are checked by a bounded native differential run against a reference tokenizer (labelled bounded).',
+         '(no token spans past a newline) are decided the same way. The position bookkeeping at the end of _process_token is under a '
+         'region contract (loop invariant: line = line at entry + newlines consumed, column = distance to the last newline, for every '
+         'consumed text). Multi-line states, escape decoding and numeric values are checked by a bounded native differential run '
+         'against a reference tokenizer (labelled bounded).',
     note='Assumed and cross-checked every run: anchored re.match == longest prefix accepted by the automaton (exhaustive '
          'comparison with the real re on all strings up to length 4/5 per pattern). The operator set is the dialect picotool '
          'implements; admitted alternative readings: hex/binary numerals with trailing dot, 1..x.',
@@ -236,7 +253,10 @@ CHECKS = {
          'reproduce PICO-8\'s own text).',
     note='Trusted: pyvc VC generator (builtin models of format/int/fromhex/rstrip cross-checked against CPython over their '
          'whole finite domain every run), z3. Cart image geometry fixed at 160x205 RGBA8. Map.from_lines/from_bytes wrappers '
-         'and the slicing/join inside the file-level functions are not under contract here.',
+         'are not under contract. The memory map of the image (slicing in the reader, join in the writer) is a LAYOUT obligation read off '
+         'the ast (shared with C04), a violation only with a failing input from the bounded whole-file run (reference PNG decoder, '
+         'PICO-8\'s own .p8 / .p8.png pairs); a ground codec run covers all 65,536 sfx note words and every byte value per gfx / music '
+         'column on concrete regions.',
     technique='contract-based deductive verification against an independent format spec (pyvc VCs, z3 QF_UFBV/LIA) + ground spec sanity'),
  'C17': dict(category='proof', design_ref='DESIGN.md section 4 (C17)',
     text='Every accessor of Gfx/Map/Gff/Sfx/Music (except Map.get_rect_pixels) is under a contract whose postcondition '
